@@ -1,1 +1,2 @@
 import GlotaranProofs.Props.C19
+import GlotaranProofs.Props.C02
